@@ -24,6 +24,7 @@ impl PlanBuilder {
             id,
             programs: vec![program],
             cancelable,
+            no_reporter: false,
             bound,
             rules: rules.iter().map(|r| rule_name(*r).to_string()).collect(),
             max_execs: 5_000_000,
@@ -38,6 +39,25 @@ impl PlanBuilder {
 }
 
 impl PlanBuilder {
+    /// A batch of hand-built programs, explored with all interleavings (no preemption bound).
+    pub fn add_batch(&mut self, programs: Vec<Program>, cancelable: bool, no_reporter: bool, rules: &[Rule]) {
+        for chunk in programs.chunks(50) {
+            let id = self.jobs.len();
+            self.jobs.push(Job {
+                id,
+                programs: chunk.to_vec(),
+                cancelable,
+                no_reporter,
+                bound: None,
+                rules: rules.iter().map(|r| rule_name(*r).to_string()).collect(),
+                max_execs: 200_000,
+                prefix: vec![],
+                expand_only: false,
+                engine: "SEQ".into(),
+            });
+        }
+    }
+
     /// All programs of a generator configuration, each with `cycles` atomic collector cycles placed
     /// at every combination of ring-push boundaries (all interleavings, no preemption bound).
     pub fn add_gen(&mut self, cfg: &GenCfg, cycles: usize, configs: &[bool], rules: &[Rule], limit: u64) -> u64 {
@@ -60,6 +80,7 @@ impl PlanBuilder {
                     id,
                     programs: programs.clone(),
                     cancelable: c,
+                    no_reporter: false,
                     bound: None,
                     rules: rules.iter().map(|r| rule_name(*r).to_string()).collect(),
                     max_execs: 200_000,
@@ -393,6 +414,7 @@ pub fn plan(property: &str, tier: &str) -> Option<CheckSpec> {
                         id,
                         programs: programs.clone(),
                         cancelable: c,
+                        no_reporter: false,
                         bound: None,
                         rules: rules.iter().map(|r| rule_name(*r).to_string()).collect(),
                         max_execs: 500_000,
@@ -404,6 +426,91 @@ pub fn plan(property: &str, tier: &str) -> Option<CheckSpec> {
             }
             rule_text = format!("{n} adapter programs (poll counts, polling thread per poll, drop at every point, nesting, enter_on_poll) x every placement of {cycles} atomic collector cycle(s) at queue-push boundaries x both configurations; the local context is observed before, inside and after every call");
             bound_text = format!("<= {} polls / calls, 2 threads, {cycles} cycle(s)", if quick { 2 } else { 3 });
+        }
+        "C09" => {
+            let rules = [Rule::Liveness, Rule::NoPanic, Rule::Deliver, Rule::Hold, Rule::Cancel, Rule::NoExtra, Rule::Tree, Rule::Attach, Rule::State];
+            let bound = if quick { 2 } else { 3 };
+            let progs = overload_programs(if quick { 2 } else { 3 });
+            let n1 = progs.len();
+            for pr in progs {
+                for c in [true, false] {
+                    b.add("SCHED", pr.clone(), c, Some(bound), &rules, false);
+                }
+            }
+            let lp = local_limit_programs();
+            let n2 = lp.len();
+            for pr in lp {
+                b.add("SEQ", pr, false, None, &rules, false);
+            }
+            rule_text = format!("{n1} queue-full episodes (real 10240-slot ring filled leaving 0/1/2 free slots, then every sequence of operations from {{finish child, end scope, cancel, finish root, new trace, attach}}, recovery interleaved with the collector's first pops, a fresh trace after the drain) x both configurations x all schedules up to the preemption bound; {n2} per-scope span-limit programs");
+            bound_text = format!("<= {} operations during the episode, preemptions <= {bound}, collector yields at its first 3 pops and between receivers", if quick { 2 } else { 3 });
+        }
+        "C07" => {
+            let rules = [Rule::Liveness, Rule::NoPanic];
+            // (a) hostile alphabet: every call in every "odd" state, sequences of <= 3 (4) calls
+            let mut g = GenCfg::base("C07-hostile");
+            g.traces = vec![
+                TraceOpt { trace: 0x7A, sampled: true, remote_parent: 0 },
+                TraceOpt { trace: 0x7B, sampled: false, remote_parent: 0 },
+            ];
+            g.any_trace_order = true;
+            g.max_spans = 3;
+            g.max_parents = 2;
+            g.dup_parent = true;
+            g.allow_noop = true;
+            g.allow_inert_local = true;
+            g.allow_scope = true;
+            g.allow_lc = true;
+            g.max_sets = 1;
+            g.max_depth = 2;
+            g.max_locals = 2;
+            g.max_attach = 2;
+            g.handle_attach = true;
+            g.local_attach = true;
+            g.creation_props = true;
+            g.allow_cancel = true;
+            g.cancel_non_root = true;
+            g.allow_child_local = true;
+            g.finish_while_scoped = true;
+            g.observe = true;
+            g.remote_children = true;
+            g.elapsed = true;
+            g.to_records = true;
+            g.max_len = if quick { 3 } else { 4 };
+            let mut progs = Vec::new();
+            generate(&g, 3_000_000, &mut |p| {
+                progs.push(p.collector(0, true, 0));
+                true
+            });
+            let n1 = progs.len();
+            b.add_batch(progs.clone(), false, false, &rules);
+            b.add_batch(progs.clone(), true, false, &rules);
+            b.add_batch(progs, false, true, &rules);
+            // (b) calls issued from inside property closures
+            let re = reentrant_programs();
+            let n2 = re.len();
+            b.add_batch(re.clone(), false, false, &rules);
+            b.add_batch(re, false, true, &rules);
+            // (c) limits: scope stack, per-scope span limit, full ring
+            let lim = limit_programs();
+            let n3 = lim.len();
+            b.add_batch(lim, false, false, &rules);
+            // (d) calls from thread-local destructors
+            let td = teardown_programs();
+            let n4 = td.len();
+            b.add_batch(td.clone(), false, false, &rules);
+            b.add_batch(td, false, true, &rules);
+            // (e) blocking: no worker step is ever disabled by a collector parked mid-cycle other
+            // than receiver registration during a drain; a hang or deadlock fails the liveness rule
+            let bound = if quick { 2 } else { 3 };
+            for s in warm(&["S3", "S4", "S7", "S13", "S19"]) {
+                for c in [true, false] {
+                    b.add("SCHED", scenario(&s, 2).unwrap(), c, Some(bound), &rules, true);
+                }
+            }
+            rule_text = format!("{n1} hostile call sequences (no-op / unsampled / all-no-op parents / no local parent / under a local collector / re-used contexts) in three process states (no reporter, default, cancelable); {n2} re-entrant programs (every closure-taking call x calls issued from inside the closure); {n3} limit programs (4096 scopes, 10240 local spans, full ring); {n4} thread-teardown programs (calls from thread-local destructors registered before/after fastrace's own thread-locals, thread traced before or not); multi-threaded scenarios with the collector parked at each of its points");
+            bound_text = format!("call sequences <= {}; scenarios: preemptions <= {bound}", g.max_len);
+            assumptions.push("harness built with debug assertions and overflow checks on (as the test suite's dev profile); a call that does not return within 20 s counts as blocked".into());
         }
         _ => return None,
     }
